@@ -33,6 +33,21 @@ theorem tgone_put {db : Db} {id : Nat} (h : TGone db id) (i : Nat) (r : Row) : T
 theorem lift_fst' {α} (db : Db) (r : Res α) (f : α → Out) : (lift db r f).1 = db := by
   cases r <;> rfl
 
+/-- `track::update` leaves the table as it was or replaces one row -/
+theorem update_fst_cases (ops : FOps) (s : Schema) (db : Db) (i : Nat) (x : Snap) :
+    (db.update ops s i x).1 = db ∨ ∃ r, (db.update ops s i x).1 = db.put i r := by
+  unfold Db.update
+  cases writeStore ops s x with
+  | ok r =>
+    simp only
+    split
+    · exact Or.inl rfl
+    · split
+      · exact Or.inl rfl
+      · exact Or.inr ⟨r, rfl⟩
+  | throw e => exact Or.inl rfl
+  | ub u => exact Or.inl rfl
+
 theorem tgone_step (ops : FOps) (s : Schema) {db : Db} {id : Nat} (h : TGone db id) (op : Op) :
     TGone (step ops s db op).1 id := by
   cases op with
@@ -58,18 +73,13 @@ theorem tgone_step (ops : FOps) (s : Schema) {db : Db} {id : Nat} (h : TGone db 
     | ub u => exact h
   | update i x =>
     simp only [step]
+    have hu : TGone (db.update ops s i x).1 id := by
+      rcases update_fst_cases ops s db i x with e | ⟨r, e⟩ <;> rw [e]
+      · exact h
+      · exact tgone_put h i r
     cases db.get i with
-    | none => rw [lift_fst']; exact h
-    | some _ =>
-      simp only [Db.update]
-      cases writeStore ops s x with
-      | ok r =>
-        simp only
-        split
-        · exact h
-        · exact tgone_put h i r
-      | throw e => exact h
-      | ub u => exact h
+    | none => simp only []; rw [lift_fst]; exact hu
+    | some _ => simp only []; rw [lift_fst]; exact hu
   | snapshot i => simp only [step]; rw [lift_fst']; exact h
   | get i g =>
     simp only [step]
@@ -161,7 +171,10 @@ theorem idInv_step (ops : FOps) (s : Schema) {db : Db} (hI : IdInv db) (op : Op)
       | ub u => exact hI
     | update i x =>
       have hg : db.get i = none := by unfold Db.get; rw [hr]; rfl
-      simp only [step, hg]; rw [lift_fst']; exact hI
+      simp only [step, hg]; rw [lift_fst]
+      rcases update_fst_cases ops s db i x with e | ⟨r, e⟩ <;> rw [e]
+      · exact hI
+      · intro e he; obtain ⟨e', he', h1⟩ := put_ids db i r e he; rw [← h1]; exact hI e' he'
     | snapshot i => simp only [step]; rw [lift_fst']; exact hI
     | get i g =>
       have hg : db.get i = none := by unfold Db.get; rw [hr]; rfl
@@ -197,18 +210,13 @@ theorem idInv_step (ops : FOps) (s : Schema) {db : Db} (hI : IdInv db) (op : Op)
       | ub u => exact hI
     | update i x =>
       simp only [step]
+      have hu : IdInv (db.update ops s i x).1 := by
+        rcases update_fst_cases ops s db i x with e | ⟨r, e⟩ <;> rw [e]
+        · exact hI
+        · intro e he; obtain ⟨e', he', h1⟩ := put_ids db i r e he; rw [← h1]; exact hI e' he'
       cases db.get i with
-      | none => rw [lift_fst']; exact hI
-      | some _ =>
-        simp only [Db.update]
-        cases writeStore ops s x with
-        | ok r =>
-          simp only
-          split
-          · exact hI
-          · intro e he; obtain ⟨e', he', h1⟩ := put_ids db i r e he; rw [← h1]; exact hI e' he'
-        | throw e => exact hI
-        | ub u => exact hI
+      | none => simp only []; rw [lift_fst]; exact hu
+      | some _ => simp only []; rw [lift_fst]; exact hu
     | snapshot i => simp only [step]; rw [lift_fst']; exact hI
     | get i g =>
       simp only [step]
